@@ -3,6 +3,7 @@
 package pfcpiface
 
 import (
+	"fmt"
 	"net"
 	"sync"
 )
@@ -205,4 +206,108 @@ func R_C06_pool() {
 		}(g)
 	}
 	wg.Wait()
+}
+
+// H_C06_conc: two goroutines on one pool, every interleaving of their critical
+// sections (preemption at each lock acquisition, at most 3 per path): thread 1
+// asks for an address for session s1; thread 2 asks for s2 (possibly the same
+// session) and may release it again. Afterwards: stickiness, exclusivity and
+// conservation.
+func H_C06_conc() {
+	p, err := NewIPPool("10.250.0.0/29")
+	vAssert("pool-created", err == nil)
+	total := len(p.freePool)
+	if vBool("one_session_already_holds") {
+		_, e := p.LookupOrAllocIP(0x77)
+		vAssert("pre-allocation-ok", e == nil)
+	}
+	s1, s2 := vU64("seid1"), vU64("seid2")
+	vAssume(s1 != 0x77)
+	vAssume(s2 != 0x77)
+	release := vBool("thread2_releases")
+	var a, b net.IP
+	var ea, eb, er error
+	vPreemptAtLocks(3)
+	var wg sync.WaitGroup
+	wg.Add(2)
+	go func() {
+		defer wg.Done()
+		a, ea = p.LookupOrAllocIP(s1)
+	}()
+	go func() {
+		defer wg.Done()
+		b, eb = p.LookupOrAllocIP(s2)
+		if release {
+			er = p.DeallocIP(s2)
+		}
+	}()
+	wg.Wait()
+	vJoin()
+	vAssert("allocations-succeed-while-addresses-are-free", ea == nil && eb == nil)
+	if s1 == s2 && !release {
+		vCover("same-session")
+		vAssert("same-session-same-address", a.Equal(b))
+	}
+	if s1 != s2 {
+		vCover("two-sessions")
+		vAssert("two-sessions-two-addresses", !a.Equal(b))
+	}
+	_ = er
+	// conservation: every address is either free or held, none twice, none lost
+	seen := map[uint32]bool{}
+	n := 0
+	for _, ip := range p.freePool {
+		k := ip2int(ip)
+		vAssert("free-address-not-twice", !seen[k])
+		seen[k] = true
+		n++
+	}
+	for _, ip := range p.inventory {
+		k := ip2int(ip)
+		vAssert("held-address-not-also-free-or-held-twice", !seen[k])
+		seen[k] = true
+		n++
+	}
+	vAssert("no-address-lost-or-invented", n == total)
+	vCover("conc")
+}
+
+// R_C06_conc: the native counterpart: real goroutines behind a barrier, many rounds.
+func R_C06_conc() {
+	for round := 0; round < 2000; round++ {
+		p, _ := NewIPPool("10.250.0.0/28")
+		total := len(p.freePool)
+		const workers = 8
+		var start, wg sync.WaitGroup
+		start.Add(1)
+		got := make([]net.IP, workers)
+		for g := 0; g < workers; g++ {
+			wg.Add(1)
+			go func(g int) {
+				defer wg.Done()
+				start.Wait()
+				seid := uint64(1 + g%2) // two sessions, four callers each
+				ip, err := p.LookupOrAllocIP(seid)
+				if err == nil {
+					got[g] = ip
+				}
+				if g == 7 {
+					_ = p.DeallocIP(3)
+				}
+			}(g)
+		}
+		start.Done()
+		wg.Wait()
+		for g := 2; g < workers; g++ {
+			if !got[g].Equal(got[g%2]) {
+				vStressFail(fmt.Sprintf("round %d: session %d was handed %v and %v", round, 1+g%2, got[g%2], got[g]))
+			}
+		}
+		if got[0].Equal(got[1]) {
+			vStressFail(fmt.Sprintf("round %d: two sessions hold %v", round, got[0]))
+		}
+		if len(p.freePool)+len(p.inventory) != total {
+			vStressFail(fmt.Sprintf("round %d: %d free + %d held != %d", round, len(p.freePool), len(p.inventory), total))
+		}
+	}
 }
